@@ -9,7 +9,6 @@ HERE = os.path.dirname(os.path.dirname(os.path.abspath(__file__)))
 sys.path.insert(0, HERE)
 
 NA = {
-    "C14": "Every (length, permutation) schedule of a bit-tricks tracker (rotate_right, leading_ones, cross-word carry) needs bit-vector reasoning or enumeration, both outside static analysis as defined here; the only structural facts (tracker chosen by size) are already enforced by the baseline's 65-variable test (DESIGN.md section 6).",
 }
 PENDING = "check under construction (see DESIGN.md section 4); not claimed until its rules are armed"
 
